@@ -243,6 +243,58 @@ macro_rules! poly_cancel_cell {
     }};
 }
 
+/// zero-pattern family: every subset of the coefficient positions set to exactly zero (the rest keep their fingerprint
+/// values), for a few x: sparse-polynomial shortcuts, skipped stages and "leading zeros" handling are all inside
+macro_rules! poly_zeros_cell {
+    ($v:ident, $P:ty, $len:literal, $m:ident, $kind:literal, $xs:expr) => {{
+        let n = <$P as Fx>::N;
+        let es = <$P as Fx>::ES;
+        let xs: Vec<u32> = $xs;
+        let nx = xs.len() as u64;
+        let len: usize = $len;
+        let base = fingerprint(n, es, len);
+        $v.push(CellDef::new(
+            "C18",
+            format!("{}/poly{}#zeros", <$P as Fx>::NAME, $kind),
+            Space::func((1u64 << len) * nx, format!("every subset of the {} coefficient positions zeroed x {} x values", len, nx), move |i| ((i / nx) as u128) << 32 | xs[(i % nx) as usize] as u128),
+            move |key| {
+                let x = key as u32;
+                let mask = (key >> 32) as u64;
+                let c: Vec<u32> = (0..len).map(|j| if (mask >> j) & 1 == 1 { 0 } else { base[j] }).collect();
+                let cvec: Vec<Vec<u32>> = c.iter().map(|&q| vec![q]).collect();
+                let (want, nt) = ref_poly(n, es, $kind, x, &cvec);
+                let got = guard(|| poly_call!(s, $P, $len, $m, 0, x, c));
+                Out::cmp(got, want as u128, nt)
+            },
+        ));
+    }};
+}
+
+macro_rules! all_degrees_zeros {
+    ($v:ident, $P:ty, $xs:expr) => {
+        poly_zeros_cell!($v, $P, 2, poly1, "1", $xs);
+        poly_zeros_cell!($v, $P, 3, poly2, "2", $xs);
+        poly_zeros_cell!($v, $P, 4, poly3, "3", $xs);
+        poly_zeros_cell!($v, $P, 5, poly4, "4", $xs);
+        poly_zeros_cell!($v, $P, 4, poly3a, "3a", $xs);
+        poly_zeros_cell!($v, $P, 5, poly4a, "4a", $xs);
+        poly_zeros_cell!($v, $P, 6, poly5, "5", $xs);
+        poly_zeros_cell!($v, $P, 7, poly6, "6", $xs);
+        poly_zeros_cell!($v, $P, 8, poly7, "7", $xs);
+        poly_zeros_cell!($v, $P, 9, poly8, "8", $xs);
+        poly_zeros_cell!($v, $P, 10, poly9, "9", $xs);
+        poly_zeros_cell!($v, $P, 11, poly10, "10", $xs);
+        poly_zeros_cell!($v, $P, 12, poly11, "11", $xs);
+        poly_zeros_cell!($v, $P, 13, poly12, "12", $xs);
+        poly_zeros_cell!($v, $P, 14, poly13, "13", $xs);
+        poly_zeros_cell!($v, $P, 15, poly14, "14", $xs);
+        poly_zeros_cell!($v, $P, 16, poly15, "15", $xs);
+        poly_zeros_cell!($v, $P, 17, poly16, "16", $xs);
+        poly_zeros_cell!($v, $P, 18, poly17, "17", $xs);
+        poly_zeros_cell!($v, $P, 19, poly18, "18", $xs);
+    };
+}
+
 macro_rules! all_degrees_cancel {
     ($v:ident, $P:ty, $nx:expr, $nv:expr) => {
         poly_cancel_cell!($v, $P, 2, poly1, "1", $nx, $nv);
@@ -340,6 +392,21 @@ pub fn cells(thorough: bool) -> Vec<CellDef> {
     all_degrees_cancel!(v, P8E0, cx, cv);
     all_degrees_cancel!(v, P16E1, cx, cv);
     all_degrees_cancel!(v, P32E2, cx, cv);
+    {
+        // x values for the zero-pattern family: 2, -1.5, a value below one, an unstructured one (thorough: a few more)
+        let xz = |n: u32| -> Vec<u32> {
+            let one = 1u32 << (n - 2);
+            let m = if n == 32 { u32::MAX } else { (1u32 << n) - 1 };
+            let mut v = vec![one + (one >> 1), (one + (one >> 2)).wrapping_neg() & m, one - (one >> 3) - 1];
+            if thorough {
+                v.extend([one, one + 1, (one >> 1) + 3, (one + (one >> 1) + (one >> 5) + 5).wrapping_neg() & m]);
+            }
+            v
+        };
+        all_degrees_zeros!(v, P8E0, xz(8));
+        all_degrees_zeros!(v, P16E1, xz(16));
+        all_degrees_zeros!(v, P32E2, xz(32));
+    }
     // array coefficient types [P; 1..4]
     array_small!(v, P8E0, 1, x8.clone(), c8.clone());
     array_small!(v, P8E0, 2, x8.clone(), c8.clone());
